@@ -4,6 +4,7 @@ import (
 	"go/ast"
 	"go/token"
 	"regexp"
+	"strings"
 )
 
 // RemoveMatchComments removes pattern matched comments from file.Comments.
@@ -79,6 +80,23 @@ func ExtractMatchComments(commentGroup *ast.CommentGroup, pattern *regexp.Regexp
 		}
 	}
 	if modified != nil {
+		// The lines that stay take the places of the last lines of the group: a doc comment that loses
+		// its last line (`//go:generate stringer …` below the prose) would otherwise end one line
+		// above its declaration and be printed as a comment of its own, detached from it.
+		lineComments := true
+		slashes := make([]token.Pos, len(commentGroup.List))
+		for i, c := range commentGroup.List {
+			slashes[i] = c.Slash
+			lineComments = lineComments && strings.HasPrefix(c.Text, "//")
+		}
+		if lineComments {
+			shift := len(slashes) - len(modified)
+			for i, c := range modified {
+				if j := shift + i; 0 <= j && j < len(slashes) {
+					c.Slash = slashes[j]
+				}
+			}
+		}
 		commentGroup.List = modified
 	}
 	return removed
